@@ -11,10 +11,14 @@ use vh::*;
 
 fn run_case<T: Elem>(case: u64, args: &Args, ev: &mut Ev, log: &mut EventLog) {
     let mut rng = Rng::derive(args.seed, "C01", &[case]);
+    // fixed case ids are reserved for long axes (hundreds to thousands of knots, every knot,
+    // its neighbours and every midpoint queried)
+    let force_n = if case % 50 == 17 { Some(*rng.pick(&[300usize, 700, 1025, 2049])) } else { None };
     let (spec, lab) = gen_linear_case::<T>(
         &mut rng,
         &LinearOpts {
             extreme_magnitudes: true,
+            force_n,
             ..Default::default()
         },
     );
